@@ -1,0 +1,138 @@
+//go:build verif
+
+package types
+
+// C08 / C09 (message layer, agent W): stateless validation and signers of the vesting module's messages.
+// ValidateBasic returns nil ONLY for messages whose addresses parse, whose periods have positive lengths and valid
+// amounts and whose lockup total equals the vesting total when both schedules are given; GetSigners names exactly the
+// address the message server then takes the coins from / whose recorded authority it checks.
+
+/*@
+alias MsgCreate github.com/haqq-network/haqq/x/vesting/types.MsgCreateClawbackVestingAccount
+alias MsgInto github.com/haqq-network/haqq/x/vesting/types.MsgConvertIntoVestingAccount
+alias MsgUpd github.com/haqq-network/haqq/x/vesting/types.MsgUpdateVestingFunder
+alias MsgClaw github.com/haqq-network/haqq/x/vesting/types.MsgClawback
+alias MsgConv github.com/haqq-network/haqq/x/vesting/types.MsgConvertVestingAccount
+
+// every period has a positive length and a valid (hence non-negative) amount
+specfunc PeriodsOK(p Periods) bool = forall k int :: 0 <= k && k < len(p) ==> p[k].Length >= 1 && coins_valid(p[k].Amount) && cnonneg(p[k].Amount)
+// weaker form kept by the message server's default schedule (one period of length 0)
+specfunc PeriodsNonneg(p Periods) bool = forall k int :: 0 <= k && k < len(p) ==> p[k].Length >= 0 && cnonneg(p[k].Amount)
+// what a schedule pair must satisfy: not both empty, equal totals when both are given
+specfunc SchedulesOK(l Periods, v Periods) bool = PeriodsOK(l) && PeriodsOK(v)
+    && !(ciszero(Sum(l, len(l))) && ciszero(Sum(v, len(v))))
+    && (len(l) > 0 && len(v) > 0 ==> Sum(l, len(l)) == Sum(v, len(v)))
+specfunc CreateMsgValid(m MsgCreate) bool = bech32_ok(m.FromAddress) && bech32_ok(m.ToAddress) && SchedulesOK(m.LockupPeriods, m.VestingPeriods)
+specfunc IntoMsgValid(m MsgInto) bool = bech32_ok(m.FromAddress) && IntoTargetOK(m.ToAddress) && SchedulesOK(m.LockupPeriods, m.VestingPeriods)
+specfunc UpdMsgValid(m MsgUpd) bool = bech32_ok(m.FunderAddress) && bech32_ok(m.NewFunderAddress) && bech32_ok(m.VestingAddress)
+    && m.FunderAddress != m.NewFunderAddress
+specfunc ClawMsgValid(m MsgClaw) bool = bech32_ok(m.FunderAddress) && bech32_ok(m.AccountAddress) && (m.DestAddress != "" ==> bech32_ok(m.DestAddress))
+
+func CoinEq
+    ensures eq: result == (a == b)
+
+func (*MsgCreateClawbackVestingAccount).GetStartTime
+    inline
+func (*MsgCreateClawbackVestingAccount).GetLockupPeriods
+    inline
+func (*MsgCreateClawbackVestingAccount).GetVestingPeriods
+    inline
+func (*MsgConvertIntoVestingAccount).GetStartTime
+    inline
+func (*MsgConvertIntoVestingAccount).GetLockupPeriods
+    inline
+func (*MsgConvertIntoVestingAccount).GetVestingPeriods
+    inline
+func (*MsgClawback).GetFunderAddress
+    inline
+func (*MsgClawback).GetAccountAddress
+    inline
+func (*MsgClawback).GetDestAddress
+    inline
+func (*MsgUpdateVestingFunder).GetFunderAddress
+    inline
+func (*MsgUpdateVestingFunder).GetNewFunderAddress
+    inline
+func (*MsgUpdateVestingFunder).GetVestingAddress
+    inline
+func (*MsgConvertVestingAccount).GetVestingAddress
+    inline
+
+func (MsgCreateClawbackVestingAccount).ValidateBasic
+    let L = msg.LockupPeriods
+    let V = msg.VestingPeriods
+    ensures valid: result == nil ==> CreateMsgValid(msg)
+    ensures addresses: result == nil ==> bech32_ok(msg.FromAddress) && bech32_ok(msg.ToAddress)
+    ensures nonzero_to: result == nil ==> ret(Compare, 1, 0) != 0
+    call Compare requires zero_test: a == addr_bytes(addr_of_bech32(msg.ToAddress))
+    ensures lengths: result == nil ==> (forall k int :: 0 <= k && k < len(L) ==> L[k].Length >= 1) && (forall k int :: 0 <= k && k < len(V) ==> V[k].Length >= 1)
+    ensures amounts: result == nil ==> (forall k int :: 0 <= k && k < len(L) ==> coins_valid(L[k].Amount) && cnonneg(L[k].Amount))
+            && (forall k int :: 0 <= k && k < len(V) ==> coins_valid(V[k].Amount) && cnonneg(V[k].Amount))
+    ensures totals: result == nil && len(L) > 0 && len(V) > 0 ==> Sum(L, len(L)) == Sum(V, len(V))
+    ensures present: result == nil ==> !ciszero(Sum(L, len(L))) || !ciszero(Sum(V, len(V)))
+    loop 1 invariant idx: 0 <= #i && #i <= len(msg.LockupPeriods)
+    loop 1 invariant sum: lockupCoins == Sum(msg.LockupPeriods, #i)
+    loop 1 invariant checked: forall k int :: 0 <= k && k < #i ==> msg.LockupPeriods[k].Length >= 1 && coins_valid(msg.LockupPeriods[k].Amount) && cnonneg(msg.LockupPeriods[k].Amount)
+    loop 1,2 invariant frame: msg == old(msg) && bech32_ok(msg.FromAddress) && bech32_ok(msg.ToAddress) && ret(Compare, 1, 0) != 0
+    loop 2 invariant idx: 0 <= #i && #i <= len(msg.VestingPeriods)
+    loop 2 invariant sum: vestingCoins == Sum(msg.VestingPeriods, #i) && lockupCoins == Sum(msg.LockupPeriods, len(msg.LockupPeriods))
+    loop 2 invariant checked: PeriodsOK(msg.LockupPeriods)
+            && (forall k int :: 0 <= k && k < #i ==> msg.VestingPeriods[k].Length >= 1 && coins_valid(msg.VestingPeriods[k].Amount) && cnonneg(msg.VestingPeriods[k].Amount))
+    use return CoinsLenZero(lockupCoins)
+    use return CoinsLenZero(vestingCoins)
+
+func (MsgCreateClawbackVestingAccount).GetSigners
+    requires validated: bech32_ok(msg.FromAddress)
+    ensures funder: len(result) == 1 && result[0] == addr_of_bech32(msg.FromAddress)
+// the signer of a clawback is the funder named in the message; the message server lets it through only when that is the
+// account's recorded funder (keeper contract of Clawback: call-site clause `funder`)
+func (MsgClawback).ValidateBasic
+    ensures valid: result == nil ==> ClawMsgValid(msg)
+    ensures addresses: result == nil ==> bech32_ok(msg.FunderAddress) && bech32_ok(msg.AccountAddress) && (msg.DestAddress != "" ==> bech32_ok(msg.DestAddress))
+func (MsgClawback).GetSigners
+    requires validated: bech32_ok(msg.FunderAddress)
+    ensures funder: len(result) == 1 && result[0] == addr_of_bech32(msg.FunderAddress)
+
+func (MsgUpdateVestingFunder).ValidateBasic
+    ensures valid: result == nil ==> UpdMsgValid(msg)
+    ensures addresses: result == nil ==> bech32_ok(msg.FunderAddress) && bech32_ok(msg.NewFunderAddress) && bech32_ok(msg.VestingAddress)
+    ensures changes: result == nil ==> msg.FunderAddress != msg.NewFunderAddress
+    ensures nonzero_new: result == nil ==> ret(Compare, 1, 0) != 0
+    call Compare requires zero_test: a == addr_bytes(addr_of_bech32(msg.NewFunderAddress))
+func (MsgUpdateVestingFunder).GetSigners
+    requires validated: bech32_ok(msg.FunderAddress)
+    ensures funder: len(result) == 1 && result[0] == addr_of_bech32(msg.FunderAddress)
+
+// the signer of a conversion back to a plain account is the vesting account itself
+func (MsgConvertVestingAccount).ValidateBasic
+    ensures addresses: result == nil ==> bech32_ok(msg.VestingAddress)
+func (MsgConvertVestingAccount).GetSigners
+    requires validated: bech32_ok(msg.VestingAddress)
+    ensures owner: len(result) == 1 && result[0] == addr_of_bech32(msg.VestingAddress)
+
+func (MsgConvertIntoVestingAccount).ValidateBasic
+    let L = msg.LockupPeriods
+    let V = msg.VestingPeriods
+    ensures valid: result == nil ==> IntoMsgValid(msg)
+    ensures addresses: result == nil ==> bech32_ok(msg.FromAddress) && IntoTargetOK(msg.ToAddress)
+    ensures nonzero_to: result == nil ==> ret(Compare, 1, 0) != 0
+    call Compare requires zero_test: a == addr_bytes(IntoTarget(msg.ToAddress))
+    ensures lengths: result == nil ==> (forall k int :: 0 <= k && k < len(L) ==> L[k].Length >= 1) && (forall k int :: 0 <= k && k < len(V) ==> V[k].Length >= 1)
+    ensures amounts: result == nil ==> (forall k int :: 0 <= k && k < len(L) ==> coins_valid(L[k].Amount) && cnonneg(L[k].Amount))
+            && (forall k int :: 0 <= k && k < len(V) ==> coins_valid(V[k].Amount) && cnonneg(V[k].Amount))
+    ensures totals: result == nil && len(L) > 0 && len(V) > 0 ==> Sum(L, len(L)) == Sum(V, len(V))
+    ensures present: result == nil ==> !ciszero(Sum(L, len(L))) || !ciszero(Sum(V, len(V)))
+    loop 1 invariant idx: 0 <= #i && #i <= len(msg.LockupPeriods)
+    loop 1 invariant sum: lockupCoins == Sum(msg.LockupPeriods, #i)
+    loop 1 invariant checked: forall k int :: 0 <= k && k < #i ==> msg.LockupPeriods[k].Length >= 1 && coins_valid(msg.LockupPeriods[k].Amount) && cnonneg(msg.LockupPeriods[k].Amount)
+    loop 1,2 invariant frame: msg == old(msg) && bech32_ok(msg.FromAddress) && IntoTargetOK(msg.ToAddress) && ret(Compare, 1, 0) != 0
+    loop 2 invariant idx: 0 <= #i && #i <= len(msg.VestingPeriods)
+    loop 2 invariant sum: vestingCoins == Sum(msg.VestingPeriods, #i) && lockupCoins == Sum(msg.LockupPeriods, len(msg.LockupPeriods))
+    loop 2 invariant checked: PeriodsOK(msg.LockupPeriods)
+            && (forall k int :: 0 <= k && k < #i ==> msg.VestingPeriods[k].Length >= 1 && coins_valid(msg.VestingPeriods[k].Amount) && cnonneg(msg.VestingPeriods[k].Amount))
+    use return CoinsLenZero(lockupCoins)
+    use return CoinsLenZero(vestingCoins)
+func (MsgConvertIntoVestingAccount).GetSigners
+    requires validated: bech32_ok(msg.FromAddress)
+    ensures funder: len(result) == 1 && result[0] == addr_of_bech32(msg.FromAddress)
+@*/
